@@ -116,7 +116,14 @@ def find_block(s, rx, lo=0, hi=None, what=''):
     if len(ms) != 1:
         raise LostAnchor('anchor %r matched %d times %s' % (rx, len(ms), what))
     m = ms[0]
-    i = s.index('{', m.end() - 1)
+    k = m.end() - 1
+    if s[k] == '<':            # generic parameter list of a fn
+        k = match_close(s, k, '<', '>') + 1
+        while s[k] in ' \n\t':
+            k += 1
+    if s[k] == '(':            # fn parameter list (may contain struct patterns with braces)
+        k = match_close(s, k, '(', ')')
+    i = s.index('{', k)
     j = match_close(s, i)
     return m.start(), i, j
 
@@ -245,6 +252,8 @@ class Rules:
             b = self.sub('R12', RECV + r'\s*\.iter\(\)\s*\.%s\(' % meth, lambda m, h=helper: '%s(&%s, ' % (h, norm_ws(m.group(1)).replace(' ', '')), b)
         b = self.sub('R12', RECV + r'\s*\.iter_mut\(\)\s*\.find\(', lambda m: 'iter_mut_find(&mut %s, ' % norm_ws(m.group(1)).replace(' ', ''), b)
         b = self.sub('R12', RECV + r'\s*\.as_ref\(\)\s*\.is_some_and\(', lambda m: 'opt_is_some_and(%s.as_ref(), ' % norm_ws(m.group(1)).replace(' ', ''), b)
+        # R18: BTreeSet::is_subset on two named sets -> trusted helper
+        b = self.sub('R18', r'\b(\w+)\.is_subset\(&(\w+)\)', r'btreeset_is_subset(&\1, &\2)', b)
         # R15: Cow is erased (functions returning Cow<T> return T)
         b = self.sub('R15', r'\.into_owned\(\)', '', b)
         # R24: `.clone()` -> `.vclone()` (blanket trusted helper: Clone returns a structurally equal value, T4)
@@ -308,9 +317,12 @@ def annotate_loops(body, loops, unit):
             if l.get('mut_index'):
                 # R25: `for PAT in &mut VEC { BODY }` -> index loop with `let PAT = &mut VEC[i];` (Verus has no usable IterMut spec);
                 # the body is unchanged; it must not contain break/continue
-                if not expr.startswith('&mut '):
+                if expr.startswith('&mut '):
+                    vec = expr[len('&mut '):].strip()
+                elif expr.endswith('.iter_mut()'):
+                    vec = expr[:-len('.iter_mut()')].strip()
+                else:
                     raise LostAnchor('loop %d of %s is not a `for .. in &mut ..` loop any more' % (k, unit))
-                vec = expr[len('&mut '):].strip()
                 close = match_close(body, br)
                 inner = body[br + 1:close]
                 if re.search(r'\b(break|continue)\b', inner):
@@ -395,7 +407,7 @@ class Unit:
     """One function of /repo under contract."""
 
     def __init__(self, name, file, fn, header, impl=None, sig=None, wrap=('', ''), loops=(), subs=(), proofs=(),
-                 pre='', anyhow=True, fn_rx=None, serves=(), note='', rules=True, post_subs=(), text=None, subs_all=(), closures=None, rsubs=()):
+                 pre='', anyhow=True, fn_rx=None, serves=(), note='', rules=True, post_subs=(), text=None, subs_all=(), closures=None, rsubs=(), mut_self=False):
         self.name = name          # display name, e.g. "Bound::pow"
         self.file = file
         self.impl = impl          # regex of the impl header (None = free fn)
@@ -408,6 +420,7 @@ class Unit:
         self.subs = list(subs)    # (from, to) exact-text, each exactly once, applied after the rules
         self.post_subs = list(post_subs)
         self.subs_all = list(subs_all)   # (from, to, count): every occurrence, count must match
+        self.mut_self = mut_self
         self.rsubs = list(rsubs)         # (regex, replacement, expected count) applied after the rules
         self.closures = closures  # None = not checked; else list of dicts (params, typed, ret, ensures)
         self.proofs = list(proofs)  # (anchor, text): anchor 'start' | ('before', regex) | ('after', regex)
@@ -430,6 +443,12 @@ class Unit:
         body = f['body']
         if self.apply_rules:
             body = rules.apply(body, anyhow=self.anyhow)
+        if self.mut_self:
+            # R16: Verus does not support `mut self`: bind it to a local and rename
+            if not re.search(r'\(\s*mut self\b', f['sig']):
+                raise LostAnchor('%s no longer takes `mut self`' % self.name)
+            body = re.sub(r'\bself\b', 'this', body)
+            body = '{ let mut this = self;' + body[1:]
         for a, b in self.subs:
             if body.count(a) != 1:
                 raise LostAnchor('substitution source %r occurs %d times in %s' % (a, body.count(a), self.name))
